@@ -10,6 +10,8 @@ import (
 	"time"
 
 	"github.com/cnotch/ipchub/av/codec"
+	"github.com/cnotch/ipchub/av/codec/h264"
+	"github.com/cnotch/ipchub/av/codec/hevc"
 	"github.com/cnotch/ipchub/av/format/amf"
 	"github.com/cnotch/ipchub/utils/verifhook"
 	"github.com/cnotch/queue"
@@ -149,13 +151,29 @@ func (muxer *Muxer) process() {
 	}
 }
 
-// videoMetaReady 判断生成视频序列头所需的参数集是否已就绪
+// videoMetaReady 判断生成视频序列头所需的参数集是否已就绪：参数集齐全，并且 SPS 已经过校验
+// （sdp 解析或解包器解码成功后 Width 不为 0）或者能够解码。
+// 损坏的 SPS（例如被截断的包）不能用来生成序列头：序列头只发送一次，之后到达的正确参数集无法再修复 FLV 输出
 func (muxer *Muxer) videoMetaReady() bool {
 	vm := muxer.videoMeta
 	if vm.Codec == "H265" {
-		return len(vm.Vps) > 0 && len(vm.Sps) > 0 && len(vm.Pps) > 0
+		if len(vm.Vps) == 0 || len(vm.Sps) == 0 || len(vm.Pps) == 0 {
+			return false
+		}
+		if vm.Width != 0 {
+			return true
+		}
+		var sps hevc.H265RawSPS
+		return sps.Decode(vm.Sps) == nil
 	}
-	return len(vm.Sps) >= 4 && len(vm.Pps) > 0
+	if len(vm.Sps) < 4 || len(vm.Pps) == 0 {
+		return false
+	}
+	if vm.Width != 0 {
+		return true
+	}
+	var sps h264.RawSPS
+	return sps.Decode(vm.Sps) == nil
 }
 
 func (muxer *Muxer) muxMetadataTag() error {
